@@ -1,26 +1,12 @@
 """C16 - time on air equals the Semtech formula exactly (Modulation.tla / ModTrace.tla)."""
 import glob, json, os
-from . import core
+from . import core, purefn
 
 PID = "C16"
 
 
-def _validate(rep, traces, wd):
-    res = core.validate_traces("ModTrace.tla", "ModTrace.cfg", traces, PID)
-    states = sum(r["distinct"] for r in res)
-    gen = sum(r["generated"] for r in res)
-    accepted = 0
-    for r in res:
-        if r["accepted"]:
-            accepted += 1
-            continue
-        line = r.get("matched", 0) + 1
-        ev = core.nth_event(r["trace"], line)
-        only = "only=%d,%d,%d,%d,%d" % (ev["sf"], ev["bw"], ev["cr"], ev["h"], ev["pre"])
-        rep.violation({"property": PID, "vh": ["toa", only], "event": ev, "mismatch": r["mismatches"][:5]},
-                      f"time on air differs from the formula for sf={ev['sf']} bw#{ev['bw']} cr=4/{ev['cr']} "
-                      f"explicit_header={ev['h']} preamble={ev['pre']}: {r['mismatches'][:1]}")
-    return res, states, gen, accepted
+def _sel(ev):
+    return "only=%d,%d,%d,%d,%d" % (ev["sf"], ev["bw"], ev["cr"], ev["h"], ev["pre"])
 
 
 def run():
@@ -29,8 +15,12 @@ def run():
     out = core.run_vh("toa", wd, shards=core.NCPU)
     n = core.kv(out)["events"]
     traces = sorted(glob.glob(os.path.join(wd, "toa.*.ndjson")))
-    res, states, gen, accepted = _validate(rep, traces, wd)
-    sample = core.read_events(traces[0], 2)
+    res, bad = purefn.validate(PID, "ModTrace.tla", "ModTrace.cfg", traces)
+    for tr, ln, ev, mm in bad:
+        rep.violation({"property": PID, "vh": ["toa", _sel(ev)], "event": ev, "mismatch": mm[:5]},
+                      f"time on air differs from the formula for sf={ev['sf']} bw#{ev['bw']} cr=4/{ev['cr']} "
+                      f"explicit_header={ev['h']} preamble={ev['pre']}: {mm[0][:200]}")
+    states, gen, accepted = purefn.totals(res)
     thorough = core.tier() == "thorough"
     cov = {
         "states": states,
@@ -40,28 +30,27 @@ def run():
         "distinct_nontrivial": n * 256,
         "rule": "one evaluation = one (SF,BW,CR,header,preamble,length) tuple compared with Modulation!Toa by TLC; "
                 "tuples are enumerated, all distinct; every tuple is non-trivial (a separate point of the function)",
-        "samples": sample,
+        "samples": [purefn.trim(e, 6) for e in core.read_events(traces[0], 2)],
         "exhaustive": thorough,
         "explanation": "8 SF x 10 BW x 4 CR x 2 header modes x %s preamble options x 256 lengths; the implementation's "
-                       "values are recorded losslessly as step functions and expanded by TLC" % (
-                           "all 257" if thorough else "7 (None,0,1,6,8,12,255)"),
+                       "values are recorded losslessly as step functions and expanded by TLC; also monotone in the "
+                       "length, no panic" % ("all 257" if thorough else "7 (None,0,1,6,8,12,255)"),
     }
     return rep.finish("model_checking", cov, [
         "Modulation.tla transcribes the SX127x/AN1200.13 formula; symbol time = 2^SF*10^6/BW truncated to 1 us with the nominal bandwidth values of lora-modulation (the documented truncation)",
-        "TLC evaluates the formula in exact integer arithmetic (overflow is a TLC error)",
+        "TLC evaluates the formula in exact integer arithmetic (an overflow is a TLC error, not a wrap)",
     ])
 
 
 def replay(path):
     with open(path) as f:
         r = json.load(f)
-    rep = core.Report(PID + "-replay")
-    wd = core.workdir(PID + "-replay")
+    pid = PID + "-replay"
+    wd = core.workdir(pid)
     core.run_vh("toa", wd, shards=1, extra=r["vh"][1:])
     traces = sorted(glob.glob(os.path.join(wd, "toa.*.ndjson")))
-    res = core.validate_traces("ModTrace.tla", "ModTrace.cfg", traces, PID + "-replay")
-    bad = [x for x in res if not x["accepted"]]
-    for x in bad:
-        print("REPLAY mismatch:", x["mismatches"][:3])
+    res, bad = purefn.validate(pid, "ModTrace.tla", "ModTrace.cfg", traces)
+    for b in bad:
+        print("REPLAY mismatch:", b[3][:2])
     print("REPLAY", "violation reproduced" if bad else "no violation")
     return 1 if bad else 0
